@@ -1,0 +1,20 @@
+//go:build verif
+
+// Contracts for the bitcoin genesis export (C18); comment-only.
+package bitcoin
+
+// C18: the exported list of voted block hashes is the stored run of hashes from the tip downward, hash j being the one of
+// height tip - j, and it stops only at height 0 or at the first height that has no hash: nothing stored in that run is left out
+// (the import writes BlockHashes[tip - j] = list[j], so a dropped entry is a hash the re-imported chain no longer knows).
+// The iterators of the other sections are abstracted (A-iter); their loops carry no clause.
+//@ func ExportGenesis
+//@ property C18
+//@ requires counters: st.bitcoin.BlockTip < 9223372036854775808
+//@ ensures hashes_from_tip: forall(j, 0, len(result.BlockHashes), has(st.bitcoin.BlockHashes, st.bitcoin.BlockTip - j) && result.BlockHashes[j] == st.bitcoin.BlockHashes[st.bitcoin.BlockTip - j])
+//@ ensures hashes_complete: len(result.BlockHashes) == st.bitcoin.BlockTip + 1 || (len(result.BlockHashes) <= st.bitcoin.BlockTip && !has(st.bitcoin.BlockHashes, st.bitcoin.BlockTip - len(result.BlockHashes)))
+//@ loop 0 invariant pos: 0 <= i && i <= st.bitcoin.BlockTip + 1 && len(genesis.BlockHashes) == st.bitcoin.BlockTip + 1 - i && genesis.BlockTip == st.bitcoin.BlockTip
+//@ loop 0 invariant run: forall(j, 0, len(genesis.BlockHashes), has(st.bitcoin.BlockHashes, st.bitcoin.BlockTip - j) && genesis.BlockHashes[j] == st.bitcoin.BlockHashes[st.bitcoin.BlockTip - j])
+//@ loop 1 invariant true
+//@ loop 2 invariant true
+//@ loop 3 invariant true
+//@ modifies nothing
